@@ -151,6 +151,8 @@ var (
 	w6  = conOp{K: "remove", P: "/x/a"}
 	w7  = conOp{K: "handle", P: "/posts/{id}/c"}                      // Any: extends the parameter node
 	w8  = conOp{K: "remove", P: "/posts/author", Ms: []string{"GET"}} // last method of an otherwise untouched route
+	w9  = conOp{K: "handle", P: "/n/{id}", Ms: []string{"GET"}}       // w9 and w10 are ambiguous with each other:
+	w10 = conOp{K: "handle", P: "/n/{name}", Ms: []string{"GET"}}     // sequentially exactly one of them is rejected
 	r1  = conOp{K: "serve", Req: hv.Req{Method: "GET", Path: "/posts/author"}}
 	r2  = conOp{K: "serve", Req: hv.Req{Method: "GET", Path: "/posts/7"}}
 	r3  = conOp{K: "serve", Req: hv.Req{Method: "GET", Path: "/t"}}
@@ -168,7 +170,7 @@ var (
 func c06Scenarios(quick bool) []scenario {
 	setup := c06Setup()
 	cfg := RouterCfg{Lock: true}
-	wseq := [][]conOp{{w1}, {w2}, {w3}, {w4a}, {w4b}, {w5a}, {w5b}, {w6}, {w7}, {w8}, {w1, w2}, {w4a, w4b}, {w3, w6}, {w5a, w4b}}
+	wseq := [][]conOp{{w1}, {w2}, {w3}, {w4a}, {w4b}, {w5a}, {w5b}, {w6}, {w7}, {w8}, {w9}, {w10}, {w1, w2}, {w4a, w4b}, {w3, w6}, {w5a, w4b}}
 	rseq := [][]conOp{{r1}, {r2}, {r3}, {r4}, {r5}, {r6}, {r7}, {r8}, {r9}, {r10}, {r11}, {r12}, {r3, r3}, {r1, r2}, {r6, r3}, {r4, r7}}
 	var out []scenario
 	name := func(ts ...[]conOp) string {
@@ -191,8 +193,8 @@ func c06Scenarios(quick bool) []scenario {
 			out = append(out, scenario{Name: name(w, r), Cfg: cfg, Setup: setup, Threads: [][]conOp{w, r}, Bound: bound2, Prop: "C06"})
 		}
 	}
-	for i, w := range wseq[:10] {
-		for _, v := range wseq[i:10] {
+	for i, w := range wseq[:12] {
+		for _, v := range wseq[i:12] {
 			out = append(out, scenario{Name: name(w, v), Cfg: cfg, Setup: setup, Threads: [][]conOp{w, v}, Bound: bound2, Prop: "C06"})
 		}
 	}
@@ -205,7 +207,7 @@ func c06Scenarios(quick bool) []scenario {
 	w3s := [][]conOp{{w1}, {w3}, {w4a}, {w5b}, {w6}}
 	r3s := [][]conOp{{r1}, {r3}, {r4}, {r6}}
 	if !quick {
-		w3s = wseq[:10]
+		w3s = wseq[:12]
 		r3s = rseq[:12]
 	}
 	for i, a := range w3s {
